@@ -188,9 +188,59 @@ theorem applyCmd_locks_shrink (b : Nat) (c : BCmd) (w : FWorld) (hc : c.noLock) 
   | deleteMany ks => exact h
   | setMany kvs ttl => exact h
 
-/-- the world right after the bookkeeping of command number `w.counter` -/
+/-! ### the environment only ever removes foreign lock entries -/
+
+theorem relOne_sub (locks : List ((Nat × Nat) × LEntry)) (key k' : Nat × Nat) (e : LEntry)
+    (h : alLookup (relOne locks key) k' = some e) : alLookup locks k' = some e := by
+  unfold relOne at h
+  split at h
+  · split at h
+    · exact h
+    · rw [alLookup_erase] at h
+      split at h
+      · cases h
+      · exact h
+  · exact h
+
+theorem envRel_sub (keys : List (Nat × Nat)) (locks : List ((Nat × Nat) × LEntry)) (k' : Nat × Nat) (e : LEntry)
+    (h : alLookup (envRel keys locks) k' = some e) : alLookup locks k' = some e := by
+  induction keys generalizing locks with
+  | nil => exact h
+  | cons key rest ih => exact relOne_sub locks key k' e (ih _ h)
+
+/-- an entry carrying the victim's token is never released by the environment -/
+theorem relOne_mine (locks : List ((Nat × Nat) × LEntry)) (key k' : Nat × Nat) (e : LEntry)
+    (h : alLookup locks k' = some e) (hm : e.mine = true) : alLookup (relOne locks key) k' = some e := by
+  unfold relOne
+  split
+  · rename_i e0 h0
+    split
+    · exact h
+    · rename_i hne
+      rw [alLookup_erase]
+      split
+      · rename_i heq
+        subst heq
+        rw [h0] at h
+        cases h
+        exact absurd hm hne
+      · exact h
+  · exact h
+
+theorem envRel_mine (keys : List (Nat × Nat)) (locks : List ((Nat × Nat) × LEntry)) (k' : Nat × Nat) (e : LEntry)
+    (h : alLookup locks k' = some e) (hm : e.mine = true) : alLookup (envRel keys locks) k' = some e := by
+  induction keys generalizing locks with
+  | nil => exact h
+  | cons key rest ih => exact ih _ (relOne_mine locks key k' e h hm)
+
+/-- the world right after the bookkeeping of command number `w.counter` (the environment has moved) -/
 def logged (cfg : Cfg) (b : Nat) (c : BCmd) (w : FWorld) : FWorld :=
-  { w with counter := w.counter + 1, log := w.log ++ [⟨w.counter, b, c, cfg.fails w.counter⟩] }
+  { w with counter := w.counter + 1, log := w.log ++ [⟨w.counter, b, c, cfg.fails w.counter⟩],
+           locks := envRel (cfg.env w.counter) w.locks }
+
+theorem logged_locks_sub (cfg : Cfg) (b : Nat) (c : BCmd) (w : FWorld) (key : Nat × Nat) (e : LEntry)
+    (h : alLookup (logged cfg b c w).locks key = some e) : alLookup w.locks key = some e :=
+  envRel_sub _ _ _ _ h
 
 theorem backendCmd_fail (cfg : Cfg) (b : Nat) (c : BCmd) (w : FWorld) (h : cfg.fails w.counter = true) :
     backendCmd cfg b c w = (.err (.fault w.counter), logged cfg b c w) := by
